@@ -31,6 +31,9 @@ CLAIMS["C05"] = ("stateless model checking of the real code under a virtual cloc
 CLAIMS["C06"] = ("stateless model checking of the real code: delay-bounded exhaustive placement of cancel() over a submission's life",
     "cancel() from 1-2 threads (also twice) is placed at every scheduling point of a submission's life (queued, throttled, handed over, running, between retries, polling) for every layer and six two-layer stacks, and on combinator outputs; oracles: True is sticky and nothing starts or is re-submitted afterwards, running => False with the callable's outcome, retry never re-submits after any cancel() returned, the request reaches the innermost pending delegate/input, f_nocancel shields.",
     "DESIGN.md section 6 C06")
+CLAIMS["C07"] = ("stateless model checking of the real code under a virtual clock: delay-bounded schedule enumeration with an in-flight monitor and a reference FIFO queue",
+    "Static counts 0/1/2/None, time-stepped, None-phase, raising and dropping dynamic counts, blocking and non-blocking mode, 1-2 submitter threads, 3-6 jobs, two racing completer threads and cancellation of a queued job: every schedule to d<=1 (all cells) / d<=2 (core cells) is executed; at every hand-over in-flight <= limit(t); FIFO w.r.t. real-time order of submit(); hand-over at the instant the reference queue says a slot is free (static); blocked submit() released when the queue has room; submit() never raises.",
+    "DESIGN.md section 6 C07")
 NOT_YET = {}
 
 props = [json.loads(l) for l in open(os.path.join(HERE, "properties.jsonl"))]
